@@ -37,6 +37,8 @@ pub struct Report {
     /// things that made a case inconclusive (harness-side panic, watchdog, developer debug_assert)
     pub diagnostics: Vec<Value>,
     pub inconclusive_cases: u64,
+    /// output digests per (case, pipeline): compared across fresh processes by the driver (C18)
+    pub digests: BTreeMap<String, String>,
     pub rule: String,
     pub assumptions: Vec<String>,
     pub wall_s: f64,
